@@ -74,7 +74,7 @@ def _case(draw, tier):
     if loads and draw(st.integers(0, 3)) == 0:
         loads[draw(st.integers(0, len(loads) - 1))]["p_mw"] = 0.0
     # make nominal-ratio transformers (ppc TAP == 1, SHIFT == 0: the converter's third branch class) frequent enough
-    if draw(st.integers(0, 3)) == 0:
+    if draw(st.integers(0, 1)) == 0:
         for e in recipe["el"]:
             if e["t"] == "trafo" and e.get("shift_degree", 0.0) == 0.0:
                 vh = recipe["buses"][e["hv_bus"]]["vn_kv"]
